@@ -9,7 +9,9 @@ open Bita Bita.Proto
 theorem tryInit_headerSize_ge (H : Bytes → Bytes) (features : List Nat) (read : Nat → Nat → Option Bytes)
     (a : Archive) (h : tryInit H features read = .ok a) :
     Gen.preHeaderSize + 72 ≤ a.headerSize := by
+  have hfact : Gen.chunkEndOffsetChecked = true := by decide
   unfold tryInit at h
+  simp -zeta only [hfact, ↓reduceIte] at h
   iterate 4 (split at h <;> try (cases h; done))
   dsimp only at h
   iterate 3 (split at h <;> try (cases h; done))
